@@ -1,6 +1,44 @@
 use biodivine_lib_param_bn::{BooleanNetwork, FnUpdate, VariableId};
+use std::collections::{HashMap, HashSet};
 use std::convert::TryFrom;
 use std::io::Read;
+
+/// Assigns names to the synthetic zero-arity parameters. The same row of the same function always
+/// gets the same parameter; a name never collides with a variable or parameter of the input network
+/// nor with the name of another synthetic parameter.
+struct FreshNames {
+    used: HashSet<String>,
+    assigned: HashMap<String, String>,
+}
+
+impl FreshNames {
+    fn new(network: &BooleanNetwork) -> FreshNames {
+        let mut used = HashSet::new();
+        for var in network.variables() {
+            used.insert(network.get_variable_name(var).clone());
+        }
+        for param in network.parameters() {
+            used.insert(network.get_parameter(param).get_name().clone());
+        }
+        FreshNames {
+            used,
+            assigned: HashMap::new(),
+        }
+    }
+
+    fn get(&mut self, requested: &str) -> String {
+        if let Some(name) = self.assigned.get(requested) {
+            return name.clone();
+        }
+        let mut name = requested.to_string();
+        while self.used.contains(&name) {
+            name.push('_');
+        }
+        self.used.insert(name.clone());
+        self.assigned.insert(requested.to_string(), name.clone());
+        name
+    }
+}
 
 /// Takes an input aeon model with uninterpreted/implicit update functions and transforms it
 /// to bnet with synthetic parameters. The resulting bnet model has no restrictions on the values
@@ -12,8 +50,9 @@ fn main() {
     let mut model = BooleanNetwork::try_from(buffer.as_str()).unwrap();
     //let introduce_parameters = collect_synthetic_parameter_names(&model);
     //println!("New parameters: {:?}", introduce_parameters);
+    let mut names = FreshNames::new(&model);
     for var in model.variables() {
-        flatten_update_function(&mut model, var);
+        flatten_update_function(&mut model, var, &mut names);
     }
 
     println!("{}", model.to_bnet(false).unwrap());
@@ -21,7 +60,11 @@ fn main() {
 
 /// Replace the update function of the given `variable` with a flattened version using only
 /// zero arity parameters.
-fn flatten_update_function(network: &mut BooleanNetwork, variable: VariableId) {
+fn flatten_update_function(
+    network: &mut BooleanNetwork,
+    variable: VariableId,
+    names: &mut FreshNames,
+) {
     if network.regulators(variable).is_empty() && network.get_update_function(variable).is_none() {
         // Skip zero-regulator variables without update function (they stay free inputs).
         return;
@@ -29,7 +72,7 @@ fn flatten_update_function(network: &mut BooleanNetwork, variable: VariableId) {
 
     let flattened = if let Some(function) = network.get_update_function(variable) {
         let function = function.clone(); // Clone necessary for borrow checking.
-        flatten_fn_update(network, &function)
+        flatten_fn_update(network, &function, names)
     } else {
         let regulators = network
             .regulators(variable)
@@ -37,31 +80,35 @@ fn flatten_update_function(network: &mut BooleanNetwork, variable: VariableId) {
             .map(FnUpdate::mk_var)
             .collect::<Vec<_>>();
         let name = format!("{}_", network.get_variable_name(variable));
-        explode_function(network, &regulators, name)
+        explode_function(network, &regulators, name, names)
     };
     network
         .set_update_function(variable, Some(flattened))
         .unwrap();
 }
 
-fn flatten_fn_update(network: &mut BooleanNetwork, update: &FnUpdate) -> FnUpdate {
+fn flatten_fn_update(
+    network: &mut BooleanNetwork,
+    update: &FnUpdate,
+    names: &mut FreshNames,
+) -> FnUpdate {
     match update {
         FnUpdate::Const(value) => FnUpdate::Const(*value),
         FnUpdate::Var(id) => FnUpdate::Var(*id),
-        FnUpdate::Not(update) => flatten_fn_update(network, update).negation(),
+        FnUpdate::Not(update) => flatten_fn_update(network, update, names).negation(),
         FnUpdate::Param(id, args) => {
             let name = network.get_parameter(*id).get_name().clone();
             // the arguments may contain uninterpreted functions as well
             let args = args
                 .iter()
-                .map(|arg| flatten_fn_update(network, arg))
+                .map(|arg| flatten_fn_update(network, arg, names))
                 .collect::<Vec<_>>();
-            explode_function(network, &args, format!("{name}_"))
+            explode_function(network, &args, format!("{name}_"), names)
         }
         FnUpdate::Binary(op, left, right) => FnUpdate::Binary(
             *op,
-            Box::new(flatten_fn_update(network, left)),
-            Box::new(flatten_fn_update(network, right)),
+            Box::new(flatten_fn_update(network, left, names)),
+            Box::new(flatten_fn_update(network, right, names)),
         ),
     }
 }
@@ -70,16 +117,20 @@ fn explode_function(
     network: &mut BooleanNetwork,
     regulators: &[FnUpdate],
     name_prefix: String,
+    names: &mut FreshNames,
 ) -> FnUpdate {
     if regulators.is_empty() {
-        let parameter = network.find_parameter(name_prefix.as_str());
+        let name = names.get(name_prefix.as_str());
+        let parameter = network.find_parameter(name.as_str());
         let parameter =
-            parameter.unwrap_or_else(|| network.add_parameter(name_prefix.as_str(), 0).unwrap());
+            parameter.unwrap_or_else(|| network.add_parameter(name.as_str(), 0).unwrap());
         FnUpdate::Param(parameter, Vec::new())
     } else {
         let regulator = regulators[0].clone();
-        let true_branch = explode_function(network, &regulators[1..], format!("{name_prefix}1"));
-        let false_branch = explode_function(network, &regulators[1..], format!("{name_prefix}0"));
+        let true_branch =
+            explode_function(network, &regulators[1..], format!("{name_prefix}1"), names);
+        let false_branch =
+            explode_function(network, &regulators[1..], format!("{name_prefix}0"), names);
         regulator
             .clone()
             .implies(true_branch)
